@@ -255,6 +255,22 @@ fn run_case(seed: u64, idx: u64, _tier: Tier, out: &mut CaseOut) {
     }
     p.max_depth = 4;
     let mut doc = gen_doc(&mut rng, &p);
+    // digits-only superscripts take a fast path (superscript glyphs, no extra
+    // annotation): a few of them, followed by ordinary text
+    let mut has_digit_sup = false;
+    if rng.chance(1, 3) {
+        has_digit_sup = true;
+        let mut added = 0;
+        ast::for_each_el_mut(&mut doc, &mut |e| {
+            if added < 3 && matches!(e.tag.as_str(), "p" | "li" | "div" | "td") && rng.chance(1, 4) {
+                added += 1;
+                e.children.push(ast::El::with("sup", vec![Node::Word(format!("{}", rng.range(1, 99)))]).node());
+                e.children.push(Node::Space);
+                e.children.push(Node::Word("tail".into()));
+            }
+        });
+        out.count("digit_superscripts", added);
+    }
     let coloured = rng.chance(2, 3);
     let sheet_css = if coloured {
         out.inc("docs_with_colour");
@@ -263,8 +279,12 @@ fn run_case(seed: u64, idx: u64, _tier: Tier, out: &mut CaseOut) {
     } else {
         String::new()
     };
+    // (span-wrapping the digits of a superscript changes its rendering: known C13
+    // finding, so documents with digit superscripts keep their inline structure)
     let input = if rng.chance(1, 2) {
         ser_canonical(&doc)
+    } else if has_digit_sup {
+        ast::serialize(&doc, &mut ast::Fmt::layout_only(rng.fork()))
     } else {
         ser_varied(&doc, &mut rng)
     };
